@@ -116,17 +116,17 @@ func s3Aliasing() []BashCase {
 		return SliceLit{TInt, e}
 	}
 	progs := map[string][]Stmt{
-		"copy-of-variable": {def("a", I(1, 2, 3)), def("b", vr("a")), SliceSet{"b", il(0), il(9)}, pr(Index{"a", il(0)}, Index{"b", il(0)}), SliceSet{"a", il(5), il(7)}, pr(Len{vr("a")}, Len{vr("b")}, Index{"b", il(5)}, Index{"b", il(4)})},
-		"parameter":        {fn("w", []Param{{"p", TSliceInt}}, nil, SliceSet{"p", il(1), il(42)}, SliceSet{"p", Len{vr("p")}, il(43)}), def("a", I(1, 2, 3)), callS("w", vr("a")), pr(Index{"a", il(1)}, Len{vr("a")}, Index{"a", il(3)})},
-		"returned":         {fn("id", []Param{{"p", TSliceInt}}, []Type{TSliceInt}, ret(vr("p"))), def("a", I(1, 2)), def("b", call("id", vr("a"))), SliceSet{"b", il(0), il(5)}, pr(Index{"a", il(0)}, Len{vr("b")})},
-		"stored-by-callee": {VarDecl{Names: []string{"keep"}, Type: TSliceInt}, fn("stash", []Param{{"p", TSliceInt}}, nil, set("keep", vr("p"))), def("a", I(4, 5)), callS("stash", vr("a")), SliceSet{"keep", il(0), il(6)}, pr(Index{"a", il(0)}, Len{vr("keep")}), SliceSet{"a", il(2), il(8)}, pr(Index{"keep", il(2)})},
+		"copy-of-variable":    {def("a", I(1, 2, 3)), def("b", vr("a")), SliceSet{"b", il(0), il(9)}, pr(Index{"a", il(0)}, Index{"b", il(0)}), SliceSet{"a", il(5), il(7)}, pr(Len{vr("a")}, Len{vr("b")}, Index{"b", il(5)}, Index{"b", il(4)})},
+		"parameter":           {fn("w", []Param{{"p", TSliceInt}}, nil, SliceSet{"p", il(1), il(42)}, SliceSet{"p", Len{vr("p")}, il(43)}), def("a", I(1, 2, 3)), callS("w", vr("a")), pr(Index{"a", il(1)}, Len{vr("a")}, Index{"a", il(3)})},
+		"returned":            {fn("id", []Param{{"p", TSliceInt}}, []Type{TSliceInt}, ret(vr("p"))), def("a", I(1, 2)), def("b", call("id", vr("a"))), SliceSet{"b", il(0), il(5)}, pr(Index{"a", il(0)}, Len{vr("b")})},
+		"stored-by-callee":    {VarDecl{Names: []string{"keep"}, Type: TSliceInt}, fn("stash", []Param{{"p", TSliceInt}}, nil, set("keep", vr("p"))), def("a", I(4, 5)), callS("stash", vr("a")), SliceSet{"keep", il(0), il(6)}, pr(Index{"a", il(0)}, Len{vr("keep")}), SliceSet{"a", il(2), il(8)}, pr(Index{"keep", il(2)})},
 		"fresh-per-iteration": {VarDecl{Names: []string{"first"}, Type: TSliceInt}, forUp("i", 3, def("t", I(0)), SliceSet{"t", il(0), vr("i")}, ifs(cmp("==", vr("i"), il(0)), set("first", vr("t"))), pr(Index{"t", il(0)}, Index{"first", il(0)}, Len{vr("t")})), pr(Index{"first", il(0)})},
-		"fresh-per-call":   {fn("mk", []Param{{"v", TInt}}, []Type{TSliceInt}, def("s", I(0, 0)), SliceSet{"s", il(0), vr("v")}, ret(vr("s"))), def("a", call("mk", il(1))), def("b", call("mk", il(2))), pr(Index{"a", il(0)}, Index{"b", il(0)}), SliceSet{"a", il(1), il(9)}, pr(Index{"b", il(1)})},
-		"var-decl-empty":   {VarDecl{Names: []string{"a"}, Type: TSliceString}, VarDecl{Names: []string{"b"}, Type: TSliceString}, SliceSet{"a", il(0), sl("x")}, pr(Len{vr("a")}, Len{vr("b")})},
-		"reassign":         {def("a", I(1)), def("b", I(2, 3)), set("a", vr("b")), SliceSet{"a", il(0), il(7)}, pr(Index{"b", il(0)}, Len{vr("a")}), set("b", I()), pr(Len{vr("b")}, Len{vr("a")})},
-		"bool-and-string":  {def("f", SliceLit{TBool, []Expr{bl(true), bl(false)}}), def("s", SliceLit{TString, []Expr{sl("a b"), sl("")}}), def("g", vr("f")), def("t", vr("s")), SliceSet{"g", il(1), bl(true)}, SliceSet{"t", il(1), sl("c d")}, pr(Index{"f", il(1)}, framed(Index{"s", il(1)}), framed(Index{"s", il(0)}))},
-		"two-digit-indices": {VarDecl{Names: []string{"a"}, Type: TSliceInt}, forUp("i", 25, SliceSet{"a", vr("i"), bin("*", vr("i"), vr("i"))}), pr(Len{vr("a")}, Index{"a", il(9)}, Index{"a", il(10)}, Index{"a", il(11)}, Index{"a", il(24)}), SliceSet{"a", il(10), il(-1)}, pr(Index{"a", il(1)}, Index{"a", il(10)}, Index{"a", il(0)})},
-		"element-as-index": {def("a", I(2, 0, 1)), pr(Index{"a", Index{"a", il(0)}}, Index{"a", Index{"a", Index{"a", il(0)}}}), SliceSet{"a", Index{"a", il(1)}, il(9)}, pr(Index{"a", il(0)})},
+		"fresh-per-call":      {fn("mk", []Param{{"v", TInt}}, []Type{TSliceInt}, def("s", I(0, 0)), SliceSet{"s", il(0), vr("v")}, ret(vr("s"))), def("a", call("mk", il(1))), def("b", call("mk", il(2))), pr(Index{"a", il(0)}, Index{"b", il(0)}), SliceSet{"a", il(1), il(9)}, pr(Index{"b", il(1)})},
+		"var-decl-empty":      {VarDecl{Names: []string{"a"}, Type: TSliceString}, VarDecl{Names: []string{"b"}, Type: TSliceString}, SliceSet{"a", il(0), sl("x")}, pr(Len{vr("a")}, Len{vr("b")})},
+		"reassign":            {def("a", I(1)), def("b", I(2, 3)), set("a", vr("b")), SliceSet{"a", il(0), il(7)}, pr(Index{"b", il(0)}, Len{vr("a")}), set("b", I()), pr(Len{vr("b")}, Len{vr("a")})},
+		"bool-and-string":     {def("f", SliceLit{TBool, []Expr{bl(true), bl(false)}}), def("s", SliceLit{TString, []Expr{sl("a b"), sl("")}}), def("g", vr("f")), def("t", vr("s")), SliceSet{"g", il(1), bl(true)}, SliceSet{"t", il(1), sl("c d")}, pr(Index{"f", il(1)}, framed(Index{"s", il(1)}), framed(Index{"s", il(0)}))},
+		"two-digit-indices":   {VarDecl{Names: []string{"a"}, Type: TSliceInt}, forUp("i", 25, SliceSet{"a", vr("i"), bin("*", vr("i"), vr("i"))}), pr(Len{vr("a")}, Index{"a", il(9)}, Index{"a", il(10)}, Index{"a", il(11)}, Index{"a", il(24)}), SliceSet{"a", il(10), il(-1)}, pr(Index{"a", il(1)}, Index{"a", il(10)}, Index{"a", il(0)})},
+		"element-as-index":    {def("a", I(2, 0, 1)), pr(Index{"a", Index{"a", il(0)}}, Index{"a", Index{"a", Index{"a", il(0)}}}), SliceSet{"a", Index{"a", il(1)}, il(9)}, pr(Index{"a", il(0)})},
 	}
 	cases := []BashCase{}
 	for _, k := range sortedStmtKeys(progs) {
@@ -162,13 +162,13 @@ func s4Copy() []BashCase {
 		cases = append(cases, BashCase{Key: "S4/pairs/" + t.String(), Prog: SingleFile(stmts)})
 	}
 	extra := map[string][]Stmt{
-		"self":        {def("a", SliceLit{TInt, []Expr{il(1), il(2)}}), def("n", Copy{"a", vr("a")}), pr(vr("n"), Index{"a", il(0)}, Index{"a", il(1)})},
-		"alias":       {def("a", SliceLit{TInt, []Expr{il(1), il(2)}}), def("b", vr("a")), pr(Copy{"b", vr("a")}, Len{vr("b")})},
-		"in-function": {fn("cp", []Param{{"d", TSliceInt}, {"s", TSliceInt}}, []Type{TInt}, def("n", Copy{"d", vr("s")}), ret(vr("n"))), def("x", SliceLit{TInt, nil}), def("y", SliceLit{TInt, []Expr{il(7), il(8), il(9)}}), pr(call("cp", vr("x"), vr("y")), Len{vr("x")}, Index{"x", il(2)})},
+		"self":                   {def("a", SliceLit{TInt, []Expr{il(1), il(2)}}), def("n", Copy{"a", vr("a")}), pr(vr("n"), Index{"a", il(0)}, Index{"a", il(1)})},
+		"alias":                  {def("a", SliceLit{TInt, []Expr{il(1), il(2)}}), def("b", vr("a")), pr(Copy{"b", vr("a")}, Len{vr("b")})},
+		"in-function":            {fn("cp", []Param{{"d", TSliceInt}, {"s", TSliceInt}}, []Type{TInt}, def("n", Copy{"d", vr("s")}), ret(vr("n"))), def("x", SliceLit{TInt, nil}), def("y", SliceLit{TInt, []Expr{il(7), il(8), il(9)}}), pr(call("cp", vr("x"), vr("y")), Len{vr("x")}, Index{"x", il(2)})},
 		"global-dst-in-function": {VarDecl{Names: []string{"gd"}, Type: TSliceString}, fn("fill", nil, nil, def("n", Copy{"gd", SliceLit{TString, []Expr{sl("p q"), sl("r")}}}), pr(vr("n"))), callS("fill"), pr(Len{vr("gd")}, framed(Index{"gd", il(0)}))},
-		"result-unused": {def("a", SliceLit{TInt, nil}), ExprStmt{Copy{"a", SliceLit{TInt, []Expr{il(1), il(2), il(3)}}}}, pr(Len{vr("a")}, Index{"a", il(2)})},
-		"from-literal-and-call": {fn("mk", nil, []Type{TSliceInt}, ret(SliceLit{TInt, []Expr{il(4), il(5)}})), def("a", SliceLit{TInt, []Expr{il(0)}}), pr(Copy{"a", call("mk")}, Index{"a", il(0)}, Index{"a", il(1)})},
-		"twelve":      {VarDecl{Names: []string{"a"}, Type: TSliceInt}, forUp("i", 12, SliceSet{"a", vr("i"), vr("i")}), VarDecl{Names: []string{"b"}, Type: TSliceInt}, pr(Copy{"b", vr("a")}, Len{vr("b")}, Index{"b", il(9)}, Index{"b", il(10)}, Index{"b", il(11)})},
+		"result-unused":          {def("a", SliceLit{TInt, nil}), ExprStmt{Copy{"a", SliceLit{TInt, []Expr{il(1), il(2), il(3)}}}}, pr(Len{vr("a")}, Index{"a", il(2)})},
+		"from-literal-and-call":  {fn("mk", nil, []Type{TSliceInt}, ret(SliceLit{TInt, []Expr{il(4), il(5)}})), def("a", SliceLit{TInt, []Expr{il(0)}}), pr(Copy{"a", call("mk")}, Index{"a", il(0)}, Index{"a", il(1)})},
+		"twelve":                 {VarDecl{Names: []string{"a"}, Type: TSliceInt}, forUp("i", 12, SliceSet{"a", vr("i"), vr("i")}), VarDecl{Names: []string{"b"}, Type: TSliceInt}, pr(Copy{"b", vr("a")}, Len{vr("b")}, Index{"b", il(9)}, Index{"b", il(10)}, Index{"b", il(11)})},
 	}
 	for _, k := range sortedStmtKeys(extra) {
 		cases = append(cases, BashCase{Key: "S4/" + k, Prog: SingleFile(extra[k])})
@@ -182,20 +182,20 @@ func s5Range() []BashCase {
 		return For{Kind: ForRange, RangeIdx: idx, RangeVal: val, Over: over, Body: body}
 	}
 	progs := map[string][]Stmt{
-		"slice-index-only":  {def("a", SliceLit{TInt, []Expr{il(5), il(6), il(7)}}), rng("i", "", vr("a"), pr(vr("i"))), pr(sl("end"))},
-		"slice-index-value": {def("a", SliceLit{TString, []Expr{sl("x"), sl("y z"), sl("")}}), rng("i", "v", vr("a"), pr(vr("i"), framed(vr("v")))), pr(sl("end"))},
-		"bool-slice":        {def("a", SliceLit{TBool, []Expr{bl(true), bl(false)}}), rng("i", "v", vr("a"), pr(vr("i"), vr("v"), Not{vr("v")}))},
-		"empty-slice":       {VarDecl{Names: []string{"a"}, Type: TSliceInt}, rng("i", "v", vr("a"), pr(sl("never"), vr("i"), vr("v"))), pr(sl("end"))},
-		"string":            {def("s", sl("a bc")), rng("i", "ch", vr("s"), pr(vr("i"), framed(vr("ch")))), pr(sl("end"))},
-		"string-literal":    {rng("i", "ch", sl("xyz"), pr(vr("i"), vr("ch")))},
-		"empty-string":      {def("s", sl("")), rng("i", "", vr("s"), pr(sl("never"))), pr(sl("end"))},
-		"long-string":       {def("s", sl("abcdefghijklmnopqrstuvwx")), def("n", il(0)), rng("i", "ch", vr("s"), OpAssign{"n", "+", vr("i")}), pr(vr("n"))},
-		"in-function":       {fn("sum", []Param{{"p", TSliceInt}}, []Type{TInt}, def("t", il(0)), rng("i", "v", vr("p"), OpAssign{"t", "+", bin("*", vr("v"), bin("+", vr("i"), il(1)))}), ret(vr("t"))), pr(call("sum", SliceLit{TInt, []Expr{il(1), il(2), il(3)}}), call("sum", SliceLit{TInt, nil}))},
-		"nested":            {def("a", SliceLit{TInt, []Expr{il(1), il(2)}}), def("b", SliceLit{TString, []Expr{sl("p"), sl("q"), sl("r")}}), rng("i", "x", vr("a"), rng("j", "y", vr("b"), pr(vr("i"), vr("j"), vr("x"), vr("y"))), pr(sl("row"), vr("i")))},
-		"element-writes":    {def("a", SliceLit{TInt, []Expr{il(1), il(2), il(3)}}), rng("i", "v", vr("a"), SliceSet{"a", vr("i"), bin("*", vr("v"), il(10))}, ifs(cmp("<", vr("i"), il(2)), SliceSet{"a", bin("+", vr("i"), il(1)), il(100)})), rng("k", "w", vr("a"), pr(vr("k"), vr("w")))},
-		"break-continue":    {def("a", SliceLit{TInt, []Expr{il(1), il(2), il(3), il(4), il(5)}}), rng("i", "v", vr("a"), ifs(cmp("==", bin("%", vr("v"), il(2)), il(0)), Continue{}), ifs(cmp(">", vr("v"), il(3)), Break{}), pr(vr("i"), vr("v"))), pr(sl("end"))},
-		"two-sequential":    {def("a", SliceLit{TInt, []Expr{il(1), il(2)}}), rng("i", "v", vr("a"), pr(vr("i"), vr("v"))), rng("i", "v", vr("a"), pr(vr("v"), vr("i")))},
-		"twelve-elements":   {VarDecl{Names: []string{"a"}, Type: TSliceInt}, forUp("i", 12, SliceSet{"a", vr("i"), bin("-", il(20), vr("i"))}), def("t", il(0)), rng("j", "v", vr("a"), OpAssign{"t", "+", bin("*", vr("v"), vr("j"))}), pr(vr("t"))},
+		"slice-index-only":          {def("a", SliceLit{TInt, []Expr{il(5), il(6), il(7)}}), rng("i", "", vr("a"), pr(vr("i"))), pr(sl("end"))},
+		"slice-index-value":         {def("a", SliceLit{TString, []Expr{sl("x"), sl("y z"), sl("")}}), rng("i", "v", vr("a"), pr(vr("i"), framed(vr("v")))), pr(sl("end"))},
+		"bool-slice":                {def("a", SliceLit{TBool, []Expr{bl(true), bl(false)}}), rng("i", "v", vr("a"), pr(vr("i"), vr("v"), Not{vr("v")}))},
+		"empty-slice":               {VarDecl{Names: []string{"a"}, Type: TSliceInt}, rng("i", "v", vr("a"), pr(sl("never"), vr("i"), vr("v"))), pr(sl("end"))},
+		"string":                    {def("s", sl("a bc")), rng("i", "ch", vr("s"), pr(vr("i"), framed(vr("ch")))), pr(sl("end"))},
+		"string-literal":            {rng("i", "ch", sl("xyz"), pr(vr("i"), vr("ch")))},
+		"empty-string":              {def("s", sl("")), rng("i", "", vr("s"), pr(sl("never"))), pr(sl("end"))},
+		"long-string":               {def("s", sl("abcdefghijklmnopqrstuvwx")), def("n", il(0)), rng("i", "ch", vr("s"), OpAssign{"n", "+", vr("i")}), pr(vr("n"))},
+		"in-function":               {fn("sum", []Param{{"p", TSliceInt}}, []Type{TInt}, def("t", il(0)), rng("i", "v", vr("p"), OpAssign{"t", "+", bin("*", vr("v"), bin("+", vr("i"), il(1)))}), ret(vr("t"))), pr(call("sum", SliceLit{TInt, []Expr{il(1), il(2), il(3)}}), call("sum", SliceLit{TInt, nil}))},
+		"nested":                    {def("a", SliceLit{TInt, []Expr{il(1), il(2)}}), def("b", SliceLit{TString, []Expr{sl("p"), sl("q"), sl("r")}}), rng("i", "x", vr("a"), rng("j", "y", vr("b"), pr(vr("i"), vr("j"), vr("x"), vr("y"))), pr(sl("row"), vr("i")))},
+		"element-writes":            {def("a", SliceLit{TInt, []Expr{il(1), il(2), il(3)}}), rng("i", "v", vr("a"), SliceSet{"a", vr("i"), bin("*", vr("v"), il(10))}, ifs(cmp("<", vr("i"), il(2)), SliceSet{"a", bin("+", vr("i"), il(1)), il(100)})), rng("k", "w", vr("a"), pr(vr("k"), vr("w")))},
+		"break-continue":            {def("a", SliceLit{TInt, []Expr{il(1), il(2), il(3), il(4), il(5)}}), rng("i", "v", vr("a"), ifs(cmp("==", bin("%", vr("v"), il(2)), il(0)), Continue{}), ifs(cmp(">", vr("v"), il(3)), Break{}), pr(vr("i"), vr("v"))), pr(sl("end"))},
+		"two-sequential":            {def("a", SliceLit{TInt, []Expr{il(1), il(2)}}), rng("i", "v", vr("a"), pr(vr("i"), vr("v"))), rng("i", "v", vr("a"), pr(vr("v"), vr("i")))},
+		"twelve-elements":           {VarDecl{Names: []string{"a"}, Type: TSliceInt}, forUp("i", 12, SliceSet{"a", vr("i"), bin("-", il(20), vr("i"))}), def("t", il(0)), rng("j", "v", vr("a"), OpAssign{"t", "+", bin("*", vr("v"), vr("j"))}), pr(vr("t"))},
 		"range-with-outer-loop-mix": {def("a", SliceLit{TInt, []Expr{il(3), il(4)}}), forUp("r", 2, rng("i", "v", vr("a"), ifs(cmp("==", vr("i"), vr("r")), Continue{}), pr(vr("r"), vr("i"), vr("v"))), pr(sl("after"), vr("r")))},
 	}
 	cases := []BashCase{}
